@@ -1,7 +1,7 @@
 """C18 - an interrupted parameter study restarts without redoing or losing cases.
 
 Fault enumeration with T-AUDIT: the study runs in its own session under harness/mp_driver.py; an audit hook (inherited by the
-forked pool workers) journals the bookkeeping events (mkdir / open under the study directory) and SIGKILLs the whole process
+forked pool workers) journals the bookkeeping events (mkdir / open / rename / remove under the study directory) and SIGKILLs the whole process
 group immediately before event j of a chosen case, of a worker's log appends, or of the parent.  The study function journals
 every execution outside the study directory and returns its own inputs, so results identify their true case.  Then the
 study is run again on the same directory (force_restart=False) and an offline checker compares the outcome with the
@@ -44,7 +44,7 @@ def gen_cases(tier, seed):
     if tier == 'quick':
         g = grids[0]
         for cnum in (0, 5, 11):
-            for j in (1, 2, 3):
+            for j in (1, 2, 3, 4):
                 add(g, 4, kill=f'{cnum}:{j}')
         for j in (1, 2, 3, 5):
             add(g, 4, kill=f'worker-log:{j}')
@@ -61,7 +61,7 @@ def gen_cases(tier, seed):
             ncase = (g['nx'] + len(g['mi_x'])) * (g['ny'] + len(g['mi_y']))
             for procs in ((4, 8) if gi < 2 else (8, 16)):
                 for cnum in range(ncase):
-                    for j in (1, 2, 3):
+                    for j in (1, 2, 3, 4, 5):
                         if gi >= 2 and (cnum + j) % 3:
                             continue
                         add(g, procs, kill=f'{cnum}:{j}')
